@@ -15,4 +15,7 @@ EmitResidue == Terminal => LET d == Depths(cfg.out) IN
                  (Residue(d) \/ d.under \/ d.unknown # "") =>
                      PrintT(<<"EMIT", ToJson([toks |-> hist, mode |-> cfg.mode, f |-> d.f, t |-> d.t, fr |-> d.fr, under |-> d.under, unknown |-> d.unknown,
                                               cbs |-> [i \in 1..Len(cfg.out) |-> cfg.out[i].cb]])>>)
+EmitTerminalAll == Terminal => LET d == Depths(cfg.out) IN
+                     PrintT(<<"EMIT", ToJson([toks |-> hist, mode |-> cfg.mode, f |-> d.f - (IF cfg.mode = "accept" THEN Leaves ELSE 0), t |-> d.t, fr |-> d.fr,
+                                              under |-> d.under, unknown |-> d.unknown])>>)
 =============================================================================
